@@ -55,7 +55,13 @@ func (mc modelCheck) register() {
 					st.Count("risky_invokes_not_executed", 1)
 				}
 			}
-			return failFrom(v.First(append(commonClauses, mc.clauses...)...))
+			cl := append(append([]string{}, commonClauses...), mc.clauses...)
+			if mc.valid {
+				// every registration of these histories is well-formed: the
+				// only legitimate rejections are duplicates and cycles
+				cl = append(cl, CVerdictProvide, CVerdictDecorate)
+			}
+			return failFrom(v.First(cl...))
 		},
 	})
 }
@@ -171,7 +177,7 @@ func init() {
 			k.PShadow = 30 // the same key provided again below a scope that provides (and perhaps already built) it
 			return k
 		},
-		clauses: []string{CProvSingle, CFromNowhere, CVerdictInvoke, CGroupForeign, CGroupMultiset, CZeroAvailable, CBadExec},
+		clauses: []string{CProvSingle, CFromNowhere, CVerdictInvoke, CVerdictProvide, CGroupForeign, CGroupMultiset, CZeroAvailable, CBadExec},
 		nt: func(l map[string]bool) bool {
 			return l["depth>=2"] && l["invoke-ok"] && (l["same-key-2-levels"] || l["same-key-2-scopes"] || l["has-export"])
 		},
